@@ -331,6 +331,20 @@ def r1_fixture_selfcheck() -> str:
 # --------------------------------------------------------------------------- R3 / R4: LayeredArchitecture
 
 
+def check_rejections(res: Result, r: Run, enc: Enc, accept, what: str, also=None) -> None:
+    """Every call that returns normally satisfies the acceptance condition, and what is raised otherwise is a configuration error."""
+    m = r.fi
+    key = K(m, "[violations raise a configuration error]")
+    silent = [pc for pc, _v, _h in r.returns if not implies(enc.pc(pc), accept) or (also is not None and not also(pc))]
+    other = [e for e in r.of("raise") if e.data["cls"] != CONFIG_ERROR and not e.in_loop and satisfiable(f_and([enc.pc(e.pc), f_not(accept)]))]
+    if silent:
+        verdict(res, r, "C16.R3", key, False, f"{m.name} can return normally although {what} (path: `{show_pc(silent[0])[:140]}`): the ill-formed call is not rejected", f"{m.relpath}:{m.node.lineno}", kind="dominance")
+    elif other:
+        verdict(res, r, "C16.R3", key, False, f"an ill-formed call raises `{other[0].data['cls']}` instead of a configuration error", other[0].where, kind="dominance")
+    else:
+        verdict(res, r, "C16.R3", key, True, f"every call that returns normally satisfies the guard; everything else ends in {CONFIG_ERROR}", f"{m.relpath}:{m.node.lineno}", kind="dominance")
+
+
 def check_layer(b: Builder, res: Result) -> None:
     r = b.run("layer")
     m = r.fi
@@ -362,6 +376,8 @@ def check_layer(b: Builder, res: Result) -> None:
         raise AnalysisError(f"{m.fq}: no write of the new layer")
     if not r.returns:
         verdict(res, r, "C16.R3", K(m, "accepts a new name"), False, "layer() never returns normally", kind="structural")
+    elif no_pending is not None:
+        check_rejections(res, r, enc, f_and([no_pending, f_not(in_store)]), "a layer is still waiting for its modules or the name is already defined")
 
 
 def check_modules_method(b: Builder, res: Result, mname: str, union_param: bool) -> None:
@@ -401,6 +417,12 @@ def check_modules_method(b: Builder, res: Result, mname: str, union_param: bool)
             args = [x for x in (v[1][0][2] + tuple(val for _k, val in v[1][0][3]))] if cls else []
             ok = cls == "ModuleNameRegexFilter" and args == [p]
             verdict(res, r, "C16.R4", K(m, "[regex filter stored]"), ok, "exactly one regex filter built from the supplied pattern is stored" if ok else f"`{show(v)[:80]}` is not the single regex filter of the supplied pattern", e.where, kind="structural")
+        if one is not None and e is evs[-1]:
+            if union_param:
+                dup_free = lambda pc: any((classify_dup(b, t, pol, p, enc, enc.pc(pc)) or ("",))[0] == "ok" for t, pol in facts(pc))  # noqa: E731
+                check_rejections(res, r, enc, one, "not exactly one layer is waiting for its modules or a supplied module is already assigned", dup_free)
+            else:
+                check_rejections(res, r, enc, one, "not exactly one layer is waiting for its modules")
 
 
 def check_dup_guard(b: Builder, res: Result, r: Run, m: FuncInfo, e: Event, p: Term, enc: Enc) -> None:
@@ -717,6 +739,11 @@ def check_are_named(repo: Repo, F: RuleFacts, res: Result, arch: Term, rule: Ter
             for c in cands:
                 if c not in subj and c != side and c != rule and not any(mentions(o, c) and o != c for o in cands):
                     subj.append(c)
+    # nothing may be added to the rule on a path that can still end in a configuration error
+    order = {id(e): i for i, e in enumerate(r.events)}
+    late = [(e, x) for e in effects for x in config_raises(r) if order[id(x)] > order[id(e)] and x.pc[: len(e.pc)] == e.pc]
+    if late:
+        verdict(res, r, "C16.R2", K(m, "guard before the layer is added"), False, f"`{_ev_text(late[0][0])}` changes the wrapped rule before the configuration error of `{_ev_text(late[0][1])[:60]}` can be raised: a rejected call leaves the rule modified", late[0][0].where, kind="dominance")
     raised = f_or([enc.pc(e.pc) for e in config_raises(r) if not e.in_loop])
     key = K(m, "exactly one subject layer")
     hit = None
@@ -744,7 +771,8 @@ def check_are_named(repo: Repo, F: RuleFacts, res: Result, arch: Term, rule: Ter
     want = hit[1]
     early = [e for e in effects if satisfiable(f_and([enc.pc(e.pc), want]), started)]
     ok = not early and bool(effects)
-    verdict(res, r, "C16.R2", K(m, "guard before the layer is added"), ok, "the subject guard precedes every change of the wrapped rule" if ok else (f"`{_ev_text(early[0])}` changes the rule before the subject guard has run" if early else "are_named no longer changes the wrapped rule"), early[0].where if early else f"{m.relpath}:{m.node.lineno}", kind="dominance")
+    if not late:
+        verdict(res, r, "C16.R2", K(m, "guard before the layer is added"), ok, "the subject guard precedes every change of the wrapped rule" if ok else (f"`{_ev_text(early[0])}` changes the rule before the subject guard has run" if early else "are_named no longer changes the wrapped rule"), early[0].where if early else f"{m.relpath}:{m.node.lineno}", kind="dominance")
 
 
 def _ev_text(e: Event) -> str:
